@@ -228,10 +228,6 @@ Definition dec_input (t : tree) : option input :=
       req <- getB req ;; p <- dec_pmap p ;; name <- dec_bytes name ;; Some (IInt req p name d mn mx)
   | T [L 4; req; p; name; d] =>
       req <- getB req ;; p <- dec_pmap p ;; name <- dec_bytes name ;; d <- dec_bytes d ;; Some (IStr req p name d)
-  | T [L 5; req; p; name; d; dtxt; parse; mn; mx] =>
-      req <- getB req ;; p <- dec_pmap p ;; name <- dec_bytes name ;; d <- dec_fv d ;; dtxt <- dec_bytes dtxt ;;
-      parse <- getList (dec_kv (getOpt dec_fv)) parse ;; mn <- dec_fv mn ;; mx <- dec_fv mx ;;
-      Some (IFloat req p name d dtxt parse mn mx)
   | _ => None
   end.
 
@@ -244,8 +240,36 @@ Definition dec_obs (t : tree) : option obs :=
   | T [L 2; ok; m] => ok <- getB ok ;; m <- dec_pmap m ;; Some (OCheck ok m)
   | T [L 3; r; m] => r <- getOpt getZ r ;; m <- dec_pmap m ;; Some (OInt r m)
   | T [L 4; r; m] => r <- getOpt dec_bytes r ;; m <- dec_pmap m ;; Some (OStr r m)
-  | T [L 5; r; m] => r <- getOpt dec_fv r ;; m <- dec_pmap m ;; Some (OFloat r m)
   | _ => None
+  end.
+
+(* a float getter case: the input carries (req params name d min max) — the older form with dtxt and parse between
+   d and min is still read, those two fields ignored —, and the Go driver derives from it the oracle
+   (d dtxt parse min max) = canonical order keys, FormatFloat of the default, what ParseFloat answers for the texts the
+   getter can look at, and reports it in the observation (5 result params' oracle).  The judge takes d, dtxt,
+   parse, min, max from that oracle only, so a damaged input can never contradict strconv. *)
+Definition dec_float_in (t : tree) : option (bool * pmap * bytes) :=
+  match t with
+  | T [L 5; req; p; name; _; _; _] | T [L 5; req; p; name; _; _; _; _; _] =>
+      req <- getB req ;; p <- dec_pmap p ;; name <- dec_bytes name ;; Some (req, p, name)
+  | _ => None
+  end.
+Definition dec_float_case (ti to : tree) : option (input * obs) :=
+  match dec_float_in ti, to with
+  | Some (req, p, name), T [L 5; r; m; T [d; dtxt; parse; mn; mx]] =>
+      m <- dec_pmap m ;; d <- dec_fv d ;; dtxt <- dec_bytes dtxt ;;
+      parse <- getList (dec_kv (getOpt dec_fv)) parse ;; mn <- dec_fv mn ;; mx <- dec_fv mx ;;
+      o <- match r with
+           | L (-1) => Some OPanic
+           | _ => r <- getOpt dec_fv r ;; Some (OFloat r m)
+           end ;;
+      Some (IFloat req p name d dtxt parse mn mx, o)
+  | _, _ => None
+  end.
+Definition dec_case (ti to : tree) : option (input * obs) :=
+  match ti with
+  | T (L 5 :: _) => dec_float_case ti to
+  | _ => i <- dec_input ti ;; o <- dec_obs to ;; Some (i, o)
   end.
 
 Definition enc_bytes (b : bytes) : tree := ofZs b.
@@ -337,12 +361,22 @@ Definition tags (i : input) : list Z :=
          end
   end.
 
-(* a case is well formed when the parameter map has distinct keys (it is a Go map) and, for the float getter,
-   the ParseFloat oracle covers the text the getter will look at *)
+(* a case is well formed when the parameter map has distinct keys (it is a Go map), every byte is a byte, the client
+   number is one of the four, and, for the float getter, the ParseFloat oracle covers the text the getter will look at *)
+Definition byte_ok (z : Z) : bool := (0 <=? z) && (z <=? 255).
+Definition bytes_ok (b : bytes) : bool := forallb byte_ok b.
+Definition pmap_ok (p : pmap) : bool := forallb (fun kv => bytes_ok (fst kv) && bytes_ok (snd kv)) p.
 Definition well_formed (i : input) : bool :=
-  keys_nodup (params_of i)
+  keys_nodup (params_of i) && pmap_ok (params_of i)
+  && match i with
+     | IBuild w _ => (0 <=? w) && (w <=? 3)
+     | IInt _ _ name _ _ _ => bytes_ok name
+     | IStr _ _ name d => bytes_ok name && bytes_ok d
+     | _ => true
+     end
   && match i with
      | IFloat req p name d dtxt parse mn mx =>
+         bytes_ok name &&
          match lookup name (with_default req name dtxt p) with
          | Some t => isSome (lookup t parse)
          | None => true
@@ -354,14 +388,14 @@ Definition well_formed (i : input) : bool :=
 Definition judge (t : tree) : tree :=
   match t with
   | T [ti; to] =>
-      match dec_input ti, dec_obs to with
-      | Some i, Some o =>
+      match dec_case ti to with
+      | Some (i, o) =>
           if well_formed i then
             let m := model_obs i in
             verdict (obs_diffs i m o) (map (fun c => clause 20 (fst c) (map L (snd c))) (spec_c20 i o))
                     (enc_obs m) (tags i)
           else malformed
-      | _, _ => malformed
+      | None => malformed
       end
   | _ => malformed
   end.
